@@ -139,3 +139,19 @@ dpotrf_stub = _Missing('dpotrf')
 dpotri_stub = _Missing('dpotri')
 MLPRegressorStub = _Missing('MLPRegressor')
 rankdata_stub = _Missing('rankdata')
+
+
+# ---------------------------------------------------------------------------
+# scipy.stats.uniform stand-in for nautilus.prior (symbolic package only)
+# ---------------------------------------------------------------------------
+
+class FrozenUniform(object):
+    def __init__(self, loc, scale):
+        self.loc, self.scale = loc, scale
+
+    def isf(self, q):
+        return self.loc + (1 - q) * self.scale
+
+
+def uniform_stub(loc=0, scale=1):
+    return FrozenUniform(loc, scale)
